@@ -374,5 +374,62 @@ class WiringPart(Part):
         return res
 
 
+class LongHistory(Part):
+    name = "after_long_history"
+    desc = "one long request history per configuration (horizon): preserved prefixes and host bits still hold afterwards"
+
+    def __init__(self, tier, seed):
+        self.tier, self.seed = tier, seed
+
+    def cases(self):
+        n = 48000 if self.tier == "quick" else 200000
+        return [{"pl": pl, "nl": nl, "B": B, "n": n} for pl, nl in ((None, None), (["10.0.0.0/8", "200.0.0.0/7"], ["10.9.0.0/16"]))
+                for B in (0, 8)]
+
+    def run(self, case):
+        res = Res()
+        pl, nl, B = case["pl"], case["nl"], case["B"]
+        listed = list(DEFAULTS if pl is None else pl) + list(nl or [])
+        nets = [ipaddress.ip_network(p) for p in listed]
+        an = ipdom.make_v4(["md5", "saltForTest"], B, pl, nl)
+        W = window_for(listed, self.seed)[::3]
+        low = (1 << B) - 1
+        for i, a in enumerate(ipdom.scattered(self.seed, 32, case["n"])):
+            fa = an.anonymize(a)
+            res.transitions += 1
+            bad = None
+            if (a & low) != (fa & low):
+                bad = "host bits changed"
+            else:
+                for n in nets:
+                    lo, hi = int(n.network_address), int(n.broadcast_address)
+                    if (lo <= a <= hi) != (lo <= fa <= hi):
+                        bad = "membership in %s changed" % n
+                        break
+            if bad:
+                res.violation("preserved-prefix-lost-after-many-requests",
+                              "prefixes %r networks %r B=%d: request #%d %s -> %s: %s" % (
+                                  pl, nl, B, i + 1, ipaddress.IPv4Address(a), ipaddress.IPv4Address(fa), bad), case)
+                return res
+            if i % 8000 == 7999:
+                for w in W:
+                    res.evals += 1
+                    fw = an.anonymize(w)
+                    for n in nets:
+                        lo, hi = int(n.network_address), int(n.broadcast_address)
+                        if (lo <= w <= hi) != (lo <= fw <= hi):
+                            res.violation("preserved-prefix-lost-after-many-requests",
+                                          "prefixes %r networks %r B=%d: after %d requests %s -> %s leaves/enters %s" % (
+                                              pl, nl, B, i + 1, ipaddress.IPv4Address(w), ipaddress.IPv4Address(fw), n), case)
+                            return res
+        res.states = 1
+        res.evals += case["n"]
+        res.nt((repr(pl), repr(nl), B))
+        res.out(B)
+        res.samples.append({"case": case})
+        return res
+
+
 def parts(tier, seed):
-    return [PrefixPart(tier, seed), HostBitsPart(tier, seed), LazyPart(tier, seed), WiringPart(tier, seed)]
+    return [PrefixPart(tier, seed), HostBitsPart(tier, seed), LazyPart(tier, seed), WiringPart(tier, seed),
+            LongHistory(tier, seed)]
